@@ -1043,6 +1043,12 @@ class Tr2(Tr):
                     raise Refuse(f"{self.fn}: call of member `{e[2]}`")
                 t, ty = self.rv(e[1], env, "ptr")
                 return f"{ind}let h := updateHeightAndSlope h {t}\n" + self.stmts2(rest, env, ind, lp)
+            if e[0] == "call" and e[1] == "__allocItems" and len(e[2]) == 1 and self.strip(e[2][0])[0] == "lit":
+                # the helper that prepends a fresh block of N items to the free list (recognised in front of the parser)
+                self.fresh += 1
+                tmp = f"r{self.fresh}"
+                return (f"{ind}let {tmp} := h.allocBlock {self.strip(e[2][0])[1]} h.freeItem\n{ind}let h := {tmp}.1\n"
+                        f"{ind}let h := h.setFree {tmp}.2\n") + self.stmts2(rest, env, ind, lp)
             if e[0] == "call" and e[1] in self.info and e[1] not in self.sigs and self.info[e[1]]["ret"] == "void":
                 # a fragment outlined by the translator (insertThread / insertRebalance): called on the enclosing locals
                 inf = self.info[e[1]]
@@ -1425,6 +1431,7 @@ def translate_header(path):
     leaf_txt = (ibody[leaf_span[0]:fend] + (" else { " if has_else else " ") + "insertThread(cell, parent, item); insertRebalance(parent); "
                 + after[msc.end():])
     leaf_txt, nalloc = outline_alloc(leaf_txt, src)
+    BLOCK_SIZES[str(path)] = nalloc
     toks = tokenize(leaf_txt)
     norm["insertLeaf"] = toks
     p = P(toks, "insertLeaf")
@@ -1661,6 +1668,21 @@ def outline_alloc(txt, src):
         if len(calls) == 1:
             c = calls[0]
             return txt[:c.start()] + f"__allocBlock({n})" + txt[c.end():], n
+    # form 3: `void f(usize count) { <block of count items>; Item* y = freeItem; <fill onto y> freeItem = y; }`, called as `f(N);`
+    rx_fun3 = re.compile(r"void\s+(?P<f>\w+)\s*\(\s*usize\s+(?P<cnt>\w+)\s*\)\s*\{\s*" + RX_ALLOC_CORE + r"Item\s*\*\s*(?P<x>\w+)\s*=\s*freeItem\s*;\s*"
+                         + RX_ALLOC_FILL + r"freeItem\s*=\s*(?P=x)\s*;\s*\}")
+    fs = list(rx_fun3.finditer(src))
+    if len(fs) == 1:
+        m = fs[0]
+        if m.group("n1") != m.group("cnt") or m.group("n2") != m.group("cnt"):
+            raise Refuse("block allocation: the helper does not size the block and the fill loop by its parameter")
+        calls = list(re.finditer(r"\b" + m.group("f") + r"\s*\(\s*(\w+)\s*\)\s*;", txt))
+        if len(calls) == 1:
+            c = calls[0]
+            n = resolve_const(c.group(1), src)
+            if n < 1:
+                raise Refuse(f"block allocation: a block of {n} items")
+            return txt[:c.start()] + f"__allocItems({n});" + txt[c.end():], n
     raise Refuse("insertLeaf: the block allocation (`new char[sizeof(ItemBlock) + sizeof(Item) * N]` + fill loop) is not in a recognised form")
 
 
@@ -1746,6 +1768,9 @@ def _calls(n):
     elif isinstance(n, list):
         for x in n:
             yield from _calls(x)
+
+
+BLOCK_SIZES = {}
 
 
 def generate(repo, out_path):
